@@ -177,8 +177,8 @@ impl <T: ArrayElement> ArrayReorder<T> for Array<T> {
             0 => Self::empty(),
             1 => {
                 for &sh in shifts.values() {
-                    if sh >= 0 { elements.rotate_right(sh.to_usize()); }
-                    else { elements.rotate_left(sh.unsigned_abs()); }
+                    let len = elements.len().to_isize();
+                    if len > 0 { elements.rotate_right(sh.rem_euclid(len).to_usize()); }
                 }
                 Self::flat(elements).reshape(&self.shape)
             },
@@ -187,15 +187,15 @@ impl <T: ArrayElement> ArrayReorder<T> for Array<T> {
                     let flatten = Self::flat(elements.clone());
                     elements = if ax == 0 {
                         let mut split = flatten.split(self.shape[0], Some(0))?;
-                        if sh >= 0 { split.rotate_right(sh.to_usize()); }
-                        else { split.rotate_left(sh.unsigned_abs()); }
+                        let len = split.len().to_isize();
+                        split.rotate_right(sh.rem_euclid(len).to_usize());
                         split.into_iter().flatten().collect()
                     } else if ax == array.ndim()? - 1 { flatten
                         .split(self.shape[0..ax].iter().product(), None)?.iter()
                         .flat_map(|item| {
                             let mut tmp_item = item.elements.clone();
-                            if sh >= 0 { tmp_item.rotate_right(sh.to_usize()); }
-                            else { tmp_item.rotate_left(sh.unsigned_abs()); }
+                            let len = tmp_item.len().to_isize();
+                            tmp_item.rotate_right(sh.rem_euclid(len).to_usize());
                             tmp_item
                         }).collect()
                     } else { flatten
